@@ -303,7 +303,7 @@ class Scratch:
         shutil.rmtree(self.root, ignore_errors=True)
 
 
-def run_impl(sc, spec, env=None, timeout=60, crash=None, yield_seed=None, binary="wfrun", gomaxprocs=None, kill_after=None, strace_kill=None):
+def run_impl(sc, spec, env=None, timeout=60, crash=None, yield_seed=None, binary="wfrun", gomaxprocs=None, kill_after=None, strace_kill=None, hooks_on=True):
     """one run of the real library in sc.work; returns observables"""
     specp = os.path.join(sc.root, "SPEC")
     open(specp, "w").write(spec.text(with_files=False))
@@ -324,6 +324,9 @@ def run_impl(sc, spec, env=None, timeout=60, crash=None, yield_seed=None, binary
         e["GOMAXPROCS"] = str(gomaxprocs)
     if env:
         e.update(env)
+    if not hooks_on:
+        for k in ("SCIPIPE_VERIF_LOG", "SCIPIPE_VERIF_CRASH", "SCIPIPE_VERIF_YIELD"):
+            e.pop(k, None)
     ntrace0 = len(open(trace).read().splitlines()) if os.path.exists(trace) else 0
     t0 = time.time()
     argv = [os.path.join(vlib.BIN, binary), specp]
